@@ -53,6 +53,23 @@ class StrSub(str):
     pass
 
 
+class Money(float):
+    """A float subclass whose string form is markup-hostile."""
+
+    def __str__(self):
+        return '<%.2f&>"\'' % float(self)
+
+
+class Level(int):
+    def __str__(self):
+        return 'L<%d>&"\'' % int(self)
+
+
+class FlagTrue(int):
+    def __str__(self):
+        return '<yes>'
+
+
 HOSTILE = [
     ('amp', '&'), ('lt', '<'), ('gt', '>'), ('dq', '"'), ('sq', "'"), ('all', 'a<b>&"\'c'), ('cdata-end', 'x]]>y'),
     ('comment-end', 'x-->y'), ('entity-amp', '&amp;'), ('entity-num', '&#38;&#x3c;'), ('entity-bogus', '&bogus; &lt'),
@@ -61,12 +78,20 @@ HOSTILE = [
     ('int', 7), ('float', 2.5), ('bool', True), ('obj', exprs.Obj('O<&>"\'')), ('message', Message('m<&>"\'')),
     ('dollar', '${x} $$'), ('percent', '%s %(a)s'), ('backslash', '\\<'), ('empty', ''), ('spaces', '  <  '),
     ('long', '<' * 40 + '&' * 40),
+    ('float-subclass', Money(2.5)), ('int-subclass', Level(3)), ('int-subclass-2', FlagTrue(1)),
 ]
+
+
+CATALOGUE = {}
 
 
 def translate(msgid, domain=None, mapping=None, context=None, target_language=None, default=None):
     if isinstance(msgid, Message):
         return msgid.s                      # hostile translation of a message object
+    if msgid == 'CATALOGUE-KEY':
+        return CATALOGUE['CATALOGUE-KEY']   # the translation introduces the hostile characters
+    if isinstance(msgid, str) and msgid.startswith('TRANSLATE-ME'):
+        return 'T' + msgid[12:]             # a catalogue hit for a plain-string message id: hostile translation
     text = default if default is not None else msgid
     if mapping:
         for k, v in mapping.items():
@@ -96,6 +121,10 @@ SITES = {
     'i18n-name': ('<p i18n:translate="">' + A + '<b i18n:name="n" tal:omit-tag="">${v}</b>' + B + '</p>', 'text'),
     'i18n-name-content': ('<p i18n:translate="">' + A + '<b i18n:name="n" tal:replace="v">x</b>' + B + '</p>', 'text'),
     'pipe-content': ('<p tal:content="nothing.x | v">x</p>', 'text-whole'),
+    # tal:content / tal:replace with i18n:translate="": the value is the message id; its translation is text
+    'content-translated': ('<p tal:content="\'TRANSLATE-ME\' + str_of(v)" i18n:translate="">x</p>', 'text-whole-T'),
+    'content-catalogue': ('<p tal:content="\'CATALOGUE-KEY\'" i18n:translate="">x</p>', 'text-whole'),
+    'replace-translated': ('<u>' + A + '<p tal:replace="\'TRANSLATE-ME\' + str_of(v)" i18n:translate="">x</p>' + B + '</u>', 'text-T'),
 }
 WRAPPERS = {
     'plain': '%s',
@@ -124,6 +153,7 @@ def str_form(v):
 
 def render(src, v, mode='xml'):
     from chameleon import PageTemplate, PageTextTemplate
+    CATALOGUE['CATALOGUE-KEY'] = str_form(v)
     cls = PageTemplate if mode == 'xml' else PageTextTemplate
     try:
         return cls(src, translate=translate)(v=v, h=exprs.Markup(str_form(v)), str_of=str_form)
@@ -133,6 +163,12 @@ def render(src, v, mode='xml'):
 
 def extract(out, region):
     """Locate the raw inserted region(s) in the rendered text."""
+    if region == 'text-T':
+        r = extract(out, 'text')
+        return [x[1:] if x.startswith('T') else 'MISSING-T' + x for x in r] if r else r
+    if region == 'text-whole-T':
+        r = extract(out, 'text-whole')
+        return [x[1:] if x.startswith('T') else 'MISSING-T' + x for x in r] if r else r
     if region == 'text' or region == 'comment':
         m = re.search(re.escape(A) + r'(.*?)' + re.escape(B), out, re.S)
         return [m.group(1)] if m else None
@@ -236,7 +272,8 @@ def run(ctx):
     for i, (s, w, hn, hv) in enumerate(work):
         if i % ctx.nshards != ctx.shard:
             continue
-        if s.startswith('tal-attr') and s != 'tal-attr-direct' and s != 'tal-attr-direct-sq' and isinstance(hv, Message):
+        if (s.startswith('tal-attr') and s != 'tal-attr-direct' and s != 'tal-attr-direct-sq' or s.endswith('-translated') or s == 'content-catalogue') \
+                and isinstance(hv, Message):
             continue        # str_of() already stringifies
         check_site(ctx, s, w, hn, hv)
     opt = [(n, hn, hv) for n in sorted(OPTOUTS) for hn, hv in HOSTILE]
